@@ -402,7 +402,7 @@ class Run:
         self.pre: dict[int, Any] = {}  # id(op) -> event object built before the program started (first execution of that op uses it)
         self.shared: dict[str, Any] = {}  # events published by handlers for sibling handlers to await
         self.W = float(sc.get('W') or (self._max_wait(sc) + 0.5))
-        self.max_records = int(sc.get('max_records', 40000))
+        self.max_records = int(sc.get('max_records', 25000))
 
     # ---------------------------------------------------------------- utilities
     @staticmethod
